@@ -28,11 +28,12 @@ func init() {
 		Variants: core.PlainOnly,
 		Cases: func(tier, variant string) int {
 			if tier == "thorough" {
-				return 20 * 40
+				return len(c16Cfgs) * 40
 			}
-			return 20 * 24
+			return len(c16Cfgs) * 24
 		},
 		Run:          runC16,
+		BeatTimeoutS: 90,
 		Exhaustive:   true,
 		Required:     []string{"faults_injected", "failures_checked_closed", "successes_checked_open", "deadline_ops_checked", "blocking_scenarios"},
 		CaseTimeoutS: 300,
@@ -44,11 +45,12 @@ func init() {
 }
 
 type c16Cfg struct {
-	Side    string `json:"side"` // dial | upgrade
+	Side    string `json:"side"` // dial | upgrade (dial hooks: NetDialContext, NetDial, NetDialTLSContext)
 	Proxy   bool   `json:"proxy"`
 	TLS     bool   `json:"tls"`
 	Timeout int    `json:"timeout"` // 0 none, 1 HandshakeTimeout, 2 context deadline, 3 both
 	RB      int    `json:"rb"`
+	Hook    int    `json:"dial_hook"` // 0 NetDialContext, 1 NetDial, 2 NetDialTLSContext (does the TLS handshake itself)
 }
 
 var c16Cfgs []c16Cfg
@@ -60,6 +62,7 @@ func init() {
 				c16Cfgs = append(c16Cfgs, c16Cfg{Side: "dial", Proxy: p, TLS: t, Timeout: to})
 			}
 		}
+		c16Cfgs = append(c16Cfgs, c16Cfg{Side: "dial", TLS: true, Timeout: to, Hook: 2}, c16Cfg{Side: "dial", TLS: to%2 == 0, Proxy: to >= 2, Timeout: to, Hook: 1})
 		c16Cfgs = append(c16Cfgs, c16Cfg{Side: "upgrade", Timeout: to})
 	}
 }
@@ -73,6 +76,7 @@ type c16Run struct {
 	hsTO     time.Duration
 	returned time.Time
 	hijacks  int
+	hookOps  int // transport operations made inside a NetDialTLSContext hook (its own TLS handshake)
 }
 
 const c16Host = "tls.example"
@@ -167,7 +171,22 @@ func c16Dial(cfg c16Cfg, faultAt int, fk xport.FaultKind, stopAt int, negative s
 	}
 	c16Peer(b, cfg.Proxy, cfg.TLS, stopAt, negative)
 	d := &ws.Dialer{ReadBufferSize: cfg.RB}
-	d.NetDialContext = func(ctx context.Context, network, addr string) (net.Conn, error) { return a, nil }
+	switch cfg.Hook {
+	case 1:
+		d.NetDial = func(network, addr string) (net.Conn, error) { return a, nil }
+	case 2:
+		d.NetDialTLSContext = func(ctx context.Context, network, addr string) (net.Conn, error) {
+			tc := tls.Client(a, &tls.Config{RootCAs: getPKI().pool, ServerName: c16Host})
+			if err := tc.HandshakeContext(ctx); err != nil {
+				a.Close()
+				return nil, err
+			}
+			run.hookOps = len(a.Ops())
+			return tc, nil
+		}
+	default:
+		d.NetDialContext = func(ctx context.Context, network, addr string) (net.Conn, error) { return a, nil }
+	}
 	if cfg.Proxy {
 		pu, _ := url.Parse("http://proxy.example:3128")
 		d.Proxy = func(*http.Request) (*url.URL, error) { return pu, nil }
@@ -333,7 +352,7 @@ func runC16(ctx *core.Ctx, out *core.Out) {
 				wdl, seenSet = op.T, true
 			case xport.OpRead, xport.OpWrite:
 				if !seenSet {
-					if cfg.TLS && !cfg.Proxy {
+					if cfg.TLS && !cfg.Proxy && (cfg.Hook != 2 || i < clean.hookOps) {
 						continue // TLS handshake inside the dial function: under the context, see blocking family
 					}
 					fail("io-before-deadline", fmt.Sprintf("transport operation %d (%s) happens before any deadline is armed although a handshake timeout/deadline is configured", i, op.Kind), clean, nil)
